@@ -51,6 +51,7 @@ class ScriptIn:
 
 class C18(PureCheck):
     pid = "C18"
+    sweep_exclude = ("NO_COLOR",)      # part (b) renders through blessed, which switches every capability off under NO_COLOR
     module = "QueryTrace"
     rule = ("(a) get_cursor_position on a scripted in_stream: reports with row/col in {1,9,10,123,65535} in 7-bit and 8-bit "
             "CSI form, preceded by every string of length <=4 over {x, ESC, [, 1, ;, R, newline} that contains no complete "
